@@ -304,8 +304,56 @@ def clone_cases():
     return out
 
 
+def letclone_cases():
+    """Entry conditions (`let me if ...`) of a frame of a CLONED framer: a sample of the single clause table (direct and
+    indirect goals, with and without `not`, with tolerance) and two-clause conjunctions of them."""
+    table = [(c, v) for c, v in single_clauses() if c["kind"] in ("cmp", "bool") and not isinstance(v.get(".q.s"), dict)]
+    picks = table[::29]
+    out = [([c], v) for c, v in picks]
+    for k in range(0, len(picks) - 1, 3):
+        (c1, v1), (c2, v2) = picks[k], picks[k + 1]
+        c2 = dict(c2)
+        vals = dict(v1)
+        if "state" in c2:
+            c2["state"] = ".q.t"
+            vals[".q.t"] = v2[".q.s"]
+        if isinstance(c2.get("goal"), dict):
+            c2["goal"] = dict(c2["goal"], path=".q.h")
+            vals[".q.h"] = v2[".q.g"]
+        out.append(([c1, c2], vals))
+    return out
+
+
+def check_letclone(needs, vals, tag):
+    """-> failures. Frame O1 of the moot `org` is guarded by `let me if <needs>`; the clone (`aux org as <tag>`) tries
+    to enter it at its first evaluation and must succeed iff the written condition holds."""
+    from vp.flo.run import run_text
+    L = ["house h"] + ["init %s with %s" % (p, A.lit(v)) for p, v in sorted(vals.items()) if not isinstance(v, dict)]
+    L += ["framer main be active first f0", "frame f0", "aux org as %s" % tag, "framer org be moot", "frame O0", "go next",
+          "frame O1", "let me if %s" % A.render_needs(needs), "print in"]
+    text = "\n".join(L) + "\n"
+    tr = run_text(text, 3, period=P)
+    if tr["build"] != "True" or tr.get("exc"):
+        return [("letclone-build:%s" % (tr.get("exc") or tr["build"]), "build %s %s\n%s" % (tr["build"], tr.get("detail"), text))]
+    entered = any(e[0] == "f" and e[1] != "main" and e[2] == "O1" and e[3] == "enter" for t, i, e in all_events(tr))
+    exp = all(truth(n, vals) for n in needs)
+    if entered != exp:
+        return [("wrong-entry-condition-in-clone", "`let me if %s` in a frame of the clone `aux org as %s` with %r: the frame was %s, the "
+                 "written condition is %r\n%s" % (A.render_needs(needs), tag, vals, "entered" if entered else "refused", exp, text))]
+    return []
+
+
 def work(shard, seed, tier):
     acc = Acc()
+    if shard["part"] == "clone" and shard["i"] == 0:
+        for j, (needs, vals) in enumerate(letclone_cases()):
+            tag = CG.TAGS[j % len(CG.TAGS)]
+            fails = check_letclone(needs, vals, tag)
+            acc.case(key=("letclone", A.render_needs(needs), repr(sorted(vals.items(), key=str)), tag), nontrivial=True,
+                     classes=["entry-condition-in-clone", "entry-condition-in-clone:" + ("negated" if any(n.get("neg") for n in needs) else "plain")],
+                     sample={"condition": A.render_needs(needs), "values": {k: v for k, v in vals.items()}} if j % 41 == 0 else None)
+            for sig, what in fails:
+                acc.fail(sig, what, {"letclone": {"needs": needs, "vals": vals, "tag": tag}})
     if shard["part"] == "clone":
         cases = [c for j, c in enumerate(clone_cases()) if j % shard["n"] == shard["i"]]
         for j, case in enumerate(cases):
@@ -377,6 +425,9 @@ def work(shard, seed, tier):
 def replay(case):
     if "clone" in case:
         return CG.check(case["clone"])[0]
+    if "letclone" in case:
+        c = case["letclone"]
+        return check_letclone(c["needs"], c["vals"], c["tag"])
     fails, obs = run_items([tuple(it) for it in case["items"]])
     return fails
 
@@ -384,7 +435,7 @@ def replay(case):
 RULE = ("full table of single clauses (6 operators x not x int/float/negative/zero/string/bool states x goal on/below/above the state x direct/indirect goal x "
         "tolerance none/0/0.5/-0.5; decimal states on / inside / outside the edge of decimal tolerance bands; explicitly written state and goal fields (`sf in path`) of multi-field shares; elapsed/recurred clocks in the bare and the `re [me|framer]` spelling with direct/indirect goal and tolerance; bare truthiness) + Hypothesis conjunctions of 1-3 clauses (a third of them written as the condition of a conditional auxiliary, `aux x if ..`, started iff it holds); each clause is a `go b if ..` whose "
         "outcome at its first evaluation is compared with direct evaluation of the written comparison; clock conditions written inside a CLONED framer (`aux moot as mine|tag`): "
-        "the tick at which the clone leaves the frame vs exact evaluation on the clone's own clocks. non-trivial = negated, conjunction, clock, or goal "
+        "the tick at which the clone leaves the frame vs exact evaluation on the clone's own clocks; a sample of the clause table and two-clause conjunctions as ENTRY conditions (`let me if ..`) of a frame of a cloned framer. non-trivial = negated, conjunction, clock, or goal "
         "within 0.5 of the state (boundary); distinct = distinct (condition text, share values)")
 ASSUMPTIONS = ["ordering operators are only generated between number-number and string-string operands",
                "booleans are compared with ==/!= against booleans without tolerance and by bare truthiness only (whether a bool is a 'number' for the tolerance rule is not stated)",
